@@ -69,16 +69,20 @@ WdlHeavy == WdlShapes(HeavyGrids)
 
 \* low-dimensional deterministic slices: every version x map kind x MAID with default everything else;
 \* every flag and every grid at one version of each era
-WdtSlices == {gd \in WdtLight : \/ (gd.grid = "t10" /\ gd.names \in {<<>>, <<24>>} /\ gd.nModf \in {0, 1} /\ gd.flags \subseteq {1, 512} /\ gd.nSec \in {0, 8})
-                                \/ (gd.ver \in {"WotLK", "MoP", "BfA"} /\ gd.names \in {<<>>, <<24>>} /\ gd.nModf \in {0, 1} /\ gd.nSec \in {0, 8}
-                                    /\ (gd.grid = "t01" \/ gd.flags \subseteq {1, 512}))}
-WdlSlices == {gd \in WdlLight : \/ (gd.grid = "t10" /\ gd.names \in {<<>>, <<24>>} /\ gd.nIdx \in {0, 1} /\ gd.nPlace \in {0, 1} /\ gd.nMldd \in {0, 1} /\ gd.nMlmd = 0)
-                                \/ (gd.ver \in {"Vanilla", "Wotlk", "Legion"} /\ gd.holesCls \in {"none", "some"} /\ gd.names = <<>> /\ gd.nMldd = 0 /\ gd.nMlmd = 0 /\ gd.mode = "same")}
+Plain(gd) == gd.names \in {<<>>, <<24>>} /\ gd.nModf \in {0, 1} /\ gd.nSec \in {0, 8}
+WdtSlices == {gd \in WdtLight : Plain(gd) /\
+                \/ (gd.grid = "t10" /\ gd.flags \subseteq {1, 512})                                   \* every version x kind x MAID
+                \/ (gd.ver \in {"WotLK", "BfA"} /\ gd.flags \subseteq {1, 512} /\ gd.names = <<>>)     \* every grid
+                \/ (gd.ver \in {"WotLK", "MoP", "BfA"} /\ gd.grid = "t01" /\ gd.names = <<>> /\ gd.nModf = 0)}  \* every flag
+LPlain(gd) == gd.names \in {<<>>, <<24>>} /\ gd.nIdx \in {0, 1} /\ gd.nPlace \in {0, 1} /\ gd.nMldd \in {0, 1} /\ gd.nMlmd = 0
+WdlSlices == {gd \in WdlLight : LPlain(gd) /\
+                \/ (gd.grid = "t10")                                                                   \* every version x optional group x holes x mode
+                \/ (gd.ver \in {"Vanilla", "Wotlk", "Legion"} /\ gd.holesCls \in {"none", "some"} /\ gd.names = <<>> /\ gd.nMldd = 0 /\ gd.mode = "same")}
 
 WdtChosen == IF Thorough THEN WdtLight \cup PickSome(WdtHeavy, 60, 5)
-             ELSE WdtSlices \cup PickSome(WdtLight, 250, 1) \cup PickSome(WdtHeavy, 4, 2)
+             ELSE WdtSlices \cup PickSome(WdtLight, 150, 1) \cup PickSome(WdtHeavy, 3, 2)
 WdlChosen == IF Thorough THEN WdlLight \cup PickSome(WdlHeavy, 60, 6)
-             ELSE WdlSlices \cup PickSome(WdlLight, 250, 3) \cup PickSome(WdlHeavy, 4, 4)
+             ELSE WdlSlices \cup PickSome(WdlLight, 150, 3) \cup PickSome(WdlHeavy, 3, 4)
 
 WdtCase(gd) == [kind |-> "wdt", ver |-> gd.ver, flags |-> SetToSeq(gd.flags), hasMwmo |-> gd.hasMwmo, names |-> gd.names,
                 hasModf |-> gd.hasModf, nModf |-> gd.nModf, hasMaid |-> gd.hasMaid, nSec |-> gd.nSec,
